@@ -21,6 +21,10 @@ def impl_env(hashseed='0'):
     env['PYTHONHASHSEED'] = str(hashseed)
     env['MIASMX_VERIF'] = '1'
     env['PYTHONDONTWRITEBYTECODE'] = '1'
+    # the library caches its PLY parser tables in tempfile.gettempdir(): keep them in this run's private directory
+    td = os.environ.get('VERIF_TMPDIR') or os.path.join(ROOT, 'work', 'tmp')
+    os.makedirs(td, exist_ok=True)
+    env['TMPDIR'] = td
     return env
 
 class BuildBroken(Exception):
@@ -238,6 +242,7 @@ class Check:
         self.assumptions = []
         self.work = os.path.join(ROOT, 'work', '%s.%d' % (pid, os.getpid()))
         os.makedirs(self.work, exist_ok=True)
+        os.environ['VERIF_TMPDIR'] = os.path.join(self.work, 'tmp')
         os.makedirs(os.path.join(ROOT, 'evidence', 'replays'), exist_ok=True)
 
     def log(self, *a):
